@@ -12,7 +12,7 @@ Definition ecdh_x (prv pub : json) : option bytes :=
       if bytes_eqb c1 c2 then
         match curve_by_name c1, ec_pub prv, ec_pub pub, b64m s_d prv with
         | Some cv, Some _, Some (_, x, y), Some d =>
-            match ecdh B (curve_of B cv) (of_bytes B d) (of_bytes B x) (of_bytes B y) with
+            match ecdh B (curve_of B cv) (of_bytes B d) x y with
             | Some (zx, _) => to_bytes B zx (bytes_len cv)
             | None => None
             end
